@@ -1,5 +1,6 @@
 import PyaModel.Proofs.C07
 import PyaModel.Generated.SigTypes
+import PyaModel.Generated.SigRoutes
 import PyaModel.Spec.Mem
 import PyaModel.Generated.ClassTable
 /-!
@@ -226,6 +227,141 @@ example : cpyBind exA.shape ⟨4, ["d", "z"]⟩ = true :=
   sig_assign_sound_partial liveTyRel exE exA (by decide) (by decide) (by decide) (by decide) _ (by decide)
 example : sigCanAssign liveTyRel exA.tsig exE.tsig = false := by decide  -- and the converse pair is rejected
 example : ovCanAssign liveTyRel [exE.tsig, wShadowE.tsig] [wShadowA'.tsig, exA.tsig] = true := by decide
+
+/-! ## The override route (`_check_for_incompatible_overrides`) -/
+
+/-- **Every definer is compared.** The override check passes exactly when the child's member is
+compatible with the member of *every* ancestor that binds the name in its own body — not just
+with the nearest one in the MRO. (This is the content of the model `overrideOk`; the `hier`
+correspondence stream ties the implementation to it on sibling bases, diamonds and chains.) -/
+theorem override_all_definers (R : TyRel τ) (defs : Nat → Option (Member τ)) (anc : List Nat)
+    (child : Member τ) :
+    overrideOk R defs anc child = true ↔
+      ∀ i ∈ anc, ∀ b, defs i = some b → memberOk R b child = true :=
+  overrideOk_iff R defs anc child
+
+/-- **The verdict does not depend on the order of the bases**: any two linearisations of the same
+set of ancestors (e.g. the MROs of `class C(A, B)` and `class C(B, A)`) give the same verdict. -/
+theorem override_order_irrelevant (R : TyRel τ) (defs : Nat → Option (Member τ)) (l₁ l₂ : List Nat)
+    (hp : l₁.Perm l₂) (child : Member τ) :
+    overrideOk R defs l₁ child = overrideOk R defs l₂ child :=
+  overrideOk_perm R defs l₁ l₂ hp child
+
+/-- **Overrides are behaviourally sound against every ancestor, outside the exception classes.**
+If the override check passes for a function member `c`, then for every ancestor `i` of the class
+binding a function member `b` under the same name, every call shape that binds to `b`'s header
+binds to `c`'s — unless that pair is in `staticFirst`, `posKwClash` or `starKwClash`. -/
+theorem override_sound_partial (R : TyRel τ) (a : τ) (defs : Nat → Option (Member τ))
+    (anc : List Nat) (c : FnMember τ) (hc : c.hdr.WF)
+    (hok : overrideOk R defs anc (.fn (c.raw a)) = true)
+    (i : Nat) (hi : i ∈ anc) (b : FnMember τ) (hb : defs i = some (.fn (b.raw a)))
+    (h0 : ¬ D07_staticFirst R b c = true)
+    (h1 : ¬ D07_posKwClash b.hdr c.hdr = true) (h2 : ¬ D07_starKwClash b.hdr c.hdr = true) :
+    BehSound b.hdr c.hdr := by
+  have hm := (overrideOk_iff R defs anc _).mp hok i hi _ hb
+  simp only [memberOk] at hm
+  exact sig_assign_sound_partial R b.hdr c.hdr hc h1 h2
+    (callableOk_hdr R a b c hm (by simpa using h0))
+
+/-- …and contravariant in the parameters, covariant in the return annotation. -/
+theorem override_variance_partial (R : TyRel τ) (sup : τ → τ → Prop) (hR : RelSound R sup) (a : τ)
+    (defs : Nat → Option (Member τ)) (anc : List Nat) (c : FnMember τ) (hc : c.hdr.WF)
+    (hok : overrideOk R defs anc (.fn (c.raw a)) = true)
+    (i : Nat) (hi : i ∈ anc) (b : FnMember τ) (hbw : b.hdr.WF) (hb : defs i = some (.fn (b.raw a)))
+    (h0 : ¬ D07_staticFirst R b c = true) (h1 : ¬ D07_posKwClash b.hdr c.hdr = true) :
+    ArgsContra sup b.hdr c.hdr ∧ sup c.hdr.ret b.hdr.ret := by
+  have hm := (overrideOk_iff R defs anc _).mp hok i hi _ hb
+  simp only [memberOk] at hm
+  exact sig_assign_variance_partial R sup hR b.hdr c.hdr hbw hc h1
+    (callableOk_hdr R a b c hm (by simpa using h0))
+
+/-- Two plain methods are never in `staticFirst`: for them the theorems above need only the two
+signature-level classes. -/
+theorem staticFirst_methods (R : TyRel τ) (b c : FnMember τ) (hb : b.static = false)
+    (hc : c.static = false) : D07_staticFirst R b c = false := by
+  simp [D07_staticFirst, hb, hc]
+
+/-- **Property overrides, full strength.** An accepted property override has a getter type
+included in the base's, and a settable base has a settable child accepting the base's values. -/
+theorem override_prop_sound (R : TyRel τ) (sup : τ → τ → Prop) (hR : RelSound R sup)
+    (bt ct : τ) (bs cs : Bool) (h : memberOk R (.prop bt bs) (.prop ct cs) = true) :
+    sup ct bt ∧ (bs = true → cs = true ∧ sup bt ct) := by
+  simp only [memberOk, Bool.and_eq_true, Bool.or_eq_true, Bool.not_eq_true'] at h
+  obtain ⟨⟨h1, h2⟩, h3⟩ := h
+  refine ⟨hR.asg _ _ h2, fun hbs => ?_⟩
+  subst hbs
+  simp at h1 h3
+  exact ⟨h1, hR.asg _ _ h3⟩
+
+/-- `staticFirst` witness: `@staticmethod def s(a=0)` overridden by `@staticmethod def s(a)` is
+accepted (the first parameter is stripped like `self`); `s()` binds to the base only. -/
+def wStatB : FnMember Tag := ⟨true, { po := [], pk := [wp "a" true], vp := none, ko := [], vk := none, ret := .any }⟩
+def wStatC : FnMember Tag := ⟨true, { po := [], pk := [wp "a"], vp := none, ko := [], vk := none, ret := .any }⟩
+
+theorem witness_staticFirst :
+    wStatC.hdr.WF ∧ memberOk liveTyRel (.fn (wStatB.raw .any)) (.fn (wStatC.raw .any)) = true ∧
+    D07_staticFirst liveTyRel wStatB wStatC = true ∧
+    cpyBind wStatB.hdr.shape ⟨0, []⟩ = true ∧ cpyBind wStatC.hdr.shape ⟨0, []⟩ = false := by
+  decide
+
+/-- Sibling bases (regression for "compare with the nearest definer only"):
+`Reader.fetch(self, key)`, `Retrying.fetch(self, key, retries=0)`, `class C(Reader, Retrying)` with
+`fetch(self, key)`: the MRO is `C, Reader, Retrying`; the override is compatible with the first
+definer and incompatible with the second, so it is rejected — in either order of the bases — and
+`c.fetch(k, r)` binds to `Retrying.fetch` only. -/
+def wFetch1 : FnMember Tag := ⟨false, { po := [], pk := [wp "key"], vp := none, ko := [], vk := none, ret := .any }⟩
+def wFetch2 : FnMember Tag :=
+  ⟨false, { po := [], pk := [wp "key", wp "retries" true], vp := none, ko := [], vk := none, ret := .any }⟩
+def wFetchDefs : Nat → Option (Member Tag)
+  | 0 => some (.fn (wFetch1.raw .any))
+  | 1 => some (.fn (wFetch2.raw .any))
+  | _ => none
+
+theorem sibling_bases_both_compared :
+    c3Mros [[], [], [0, 1]] = [some [0], some [1], some [2, 0, 1]] ∧
+    c3Mros [[], [], [1, 0]] = [some [0], some [1], some [2, 1, 0]] ∧
+    overrideOk liveTyRel wFetchDefs [0] (.fn (wFetch1.raw .any)) = true ∧
+    overrideOk liveTyRel wFetchDefs [0, 1] (.fn (wFetch1.raw .any)) = false ∧
+    overrideOk liveTyRel wFetchDefs [1, 0] (.fn (wFetch1.raw .any)) = false ∧
+    cpyBind wFetch2.hdr.shape ⟨2, []⟩ = true ∧ cpyBind wFetch1.hdr.shape ⟨2, []⟩ = false := by
+  decide
+
+/-- C3 on a diamond, both base orders, and an inconsistent hierarchy. -/
+example : c3Mros [[], [0], [0], [1, 2]] = [some [0], some [1, 0], some [2, 0], some [3, 1, 2, 0]] := by decide
+example : c3Mros [[], [0], [0], [2, 1]] = [some [0], some [1, 0], some [2, 0], some [3, 2, 1, 0]] := by decide
+example : c3Mros [[], [0], [0, 1]] = [some [0], some [1, 0], none] := by decide
+
+/-! ## Route coverage -/
+
+/-- The call sites through which two signatures reach `Signature.can_assign`, as exercised by the
+correspondence streams (unit, entry, proto, override/hier, overload). -/
+def pinnedRoutes : List (String × String × String) :=
+  [("name_check_visitor.py", "NameCheckVisitor._can_assign_to_base", "_can_assign_to_base_callable"),
+   ("name_check_visitor.py", "NameCheckVisitor._can_assign_to_base", "_can_assign_to_base_property"),
+   ("name_check_visitor.py", "NameCheckVisitor._can_assign_to_base_callable", "can_assign"),
+   ("name_check_visitor.py", "NameCheckVisitor._check_for_incompatible_overrides", "_can_assign_to_base"),
+   ("name_check_visitor.py", "NameCheckVisitor._check_for_incompatible_overrides", "_get_base_class_attributes"),
+   ("name_check_visitor.py", "NameCheckVisitor._set_name_in_scope", "_check_for_incompatible_overrides"),
+   ("name_check_visitor.py", "NameCheckVisitor.visit_FunctionDef", "_get_base_class_attributes"),
+   ("signature.py", "OverloadedSignature.can_assign", "can_assign"),
+   ("signature.py", "Signature.can_assign", "can_assign"),
+   ("signature.py", "Signature.can_assign", "can_assign_through_check_call"),
+   ("signature.py", "Signature.can_assign", "can_assign_var_keyword"),
+   ("signature.py", "Signature.can_assign", "can_assign_var_keyword"),
+   ("signature.py", "Signature.can_assign", "can_assign_var_positional"),
+   ("signature.py", "Signature.can_assign", "can_assign_var_positional"),
+   ("value.py", "CallableValue.can_assign", "can_assign"),
+   ("value.py", "CallableValue.can_assign", "check_call_preprocessed"),
+   ("value.py", "CallableValue.can_overlap", "_signatures_overlap"),
+   ("value.py", "KnownValue.can_assign", "can_assign"),
+   ("value.py", "UnboundMethodValue.can_assign", "can_assign"),
+   ("value.py", "_signatures_overlap", "can_assign"),
+   ("value.py", "_signatures_overlap", "can_assign")]
+
+/-- Obligation over `Generated/SigRoutes.lean` (AST scan of the live tree): the set of routes is
+the pinned one — a new or removed call site is noticed and has to be given a stream (or dismissed)
+before the check is quiet again. -/
+theorem routes_pinned : liveRoutes = pinnedRoutes := by decide
 
 /-- The tags as value terms of the shared membership model (Spec/Mem.lean). -/
 def Tag.cls : Tag → Cls
